@@ -57,6 +57,44 @@ func victimQueues() []queueSetup {
 	}
 }
 
+// deepMinRuntimeScenarios: a 3-level tree in which the queue that protects a victim against a
+// reclaimer (the child of their lowest common ancestor) is NOT the victim's leaf queue, with every
+// assignment of {none, 0s, 1000h} to the victim's project and team queues.
+func deepMinRuntimeScenarios(tier string) []clustermc.Scenario {
+	menu := []wlItem{
+		{"run-tb-recent", world.WL{Queue: "tb", PC: "p50", LastStart: "fresh", Pods: pods(1, shG1, world.StRunning, "n1")}},
+		{"run-tb-old", world.WL{Queue: "tb", PC: "p50", LastStart: "old", Pods: pods(1, shG1, world.StRunning, "n1")}},
+		{"run-tb2-recent", world.WL{Queue: "tb2", PC: "p50", LastStart: "fresh", Pods: pods(1, shG1, world.StRunning, "n1")}},
+		{"pend-ta", world.WL{Queue: "ta", PC: "p50", Pods: pods(1, shG1, "", "")}},
+		{"pend-tb2", world.WL{Queue: "tb2", PC: "p50", Pods: pods(1, shG1, "", "")}},
+		{"pend-tc", world.WL{Queue: "tc", PC: "p50", Pods: pods(1, shG1, "", "")}},
+	}
+	var qsets []queueSetup
+	vals := []string{"", "0s", "1000h"}
+	for _, dept := range []string{"", "1000h"} {
+		for _, pb := range vals {
+			for _, tb := range vals {
+				dept, pb, tb := dept, pb, tb
+				u := world.QUnlimited()
+				g := func(q float64) world.QRes { return world.QRes{Quota: q, Limit: -1, Weight: 1} }
+				qsets = append(qsets, queueSetup{"3lvl-dept[" + dept + "]-pb[" + pb + "]-tb[" + tb + "]", func(b *world.Builder) {
+					b.Queue(world.QueueOpt{Name: "dept", GPU: g(-1), CPU: u, Mem: u, ReclaimMinRT: dept})
+					b.Queue(world.QueueOpt{Name: "dept2", GPU: g(1), CPU: u, Mem: u})
+					b.Queue(world.QueueOpt{Name: "pa", Parent: "dept", GPU: g(1), CPU: u, Mem: u})
+					b.Queue(world.QueueOpt{Name: "pb", Parent: "dept", GPU: g(0), CPU: u, Mem: u, ReclaimMinRT: pb})
+					b.Queue(world.QueueOpt{Name: "pc", Parent: "dept2", GPU: g(1), CPU: u, Mem: u})
+					b.Queue(world.QueueOpt{Name: "ta", Parent: "pa", GPU: g(1), CPU: u, Mem: u})
+					b.Queue(world.QueueOpt{Name: "tb", Parent: "pb", GPU: g(0), CPU: u, Mem: u, ReclaimMinRT: tb})
+					b.Queue(world.QueueOpt{Name: "tb2", Parent: "pb", GPU: g(0), CPU: u, Mem: u})
+					b.Queue(world.QueueOpt{Name: "tc", Parent: "pc", GPU: g(1), CPU: u, Mem: u})
+				}})
+			}
+		}
+	}
+	lay := []nodeLayout{{"1n-2gpu", []world.NodeOpt{{Name: "n1", CPU: "16", Mem: "32Gi", GPUs: 2, GPUMemMiB: 40000}}}}
+	return wlScenarios(tier, menu, lay, qsets, []schedrun.Config{{}}, 3, 4)
+}
+
 func C06() *clustermc.Family {
 	return &clustermc.Family{
 		Property: "C06",
@@ -66,7 +104,7 @@ func C06() *clustermc.Family {
 				lay = append(lay, nodeLayout{"2n-2+1gpu", []world.NodeOpt{{Name: "n1", CPU: "16", Mem: "32Gi", GPUs: 2, GPUMemMiB: 40000}, {Name: "n2", CPU: "16", Mem: "32Gi", GPUs: 1, GPUMemMiB: 40000}}})
 			}
 			cfgs := []schedrun.Config{{}, {ConsolidatingReclaim: true, Placement: "spread"}}
-			return wlScenarios(tier, victimMenu(), lay, victimQueues(), cfgs, 3, 4)
+			return append(wlScenarios(tier, victimMenu(), lay, victimQueues(), cfgs, 3, 4), deepMinRuntimeScenarios(tier)...)
 		},
 		Depth: func(tier string) int {
 			if tier == "thorough" {
